@@ -10,11 +10,11 @@ EXTENDS Integers, Sequences, FiniteSets, TLC, Json, IOUtils
 
 Trace == ndJsonDeserialize(IOEnv.TRACE)
 
-VARIABLES l, tid, present, logStart, hw, start, lower, seg, bad, stalled, hangs
-mvars == <<l, tid, present, logStart, hw, start, lower, seg, bad, stalled, hangs>>
+VARIABLES l, tid, present, logStart, hw, start, lower, seg, bad, stalled, hangs, unresolved
+mvars == <<l, tid, present, logStart, hw, start, lower, seg, bad, stalled, hangs, unresolved>>
 
 Init == /\ l = 1 /\ tid = "" /\ present = {} /\ logStart = 0 /\ hw = 0 /\ start = -2 /\ lower = 0
-        /\ seg = <<>> /\ bad = {} /\ stalled = FALSE /\ hangs = {}
+        /\ seg = <<>> /\ bad = {} /\ stalled = FALSE /\ hangs = {} /\ unresolved = FALSE
 
 Range(s) == { s[i] : i \in DOMAIN s }
 PresentOf(log) == UNION { Range(log[i].present) : i \in DOMAIN log }
@@ -28,28 +28,36 @@ Upd(e) ==
   CASE e.ev = "cfg" ->
          /\ tid' = e.id /\ present' = PresentOf(e.log) /\ logStart' = e.logStart /\ hw' = e.hw
          /\ start' = e.start /\ lower' = LowerFor(e.start, e.logStart, e.hw)
-         /\ seg' = <<>> /\ bad' = {} /\ stalled' = FALSE /\ hangs' = {}
+         /\ seg' = <<>> /\ bad' = {} /\ stalled' = FALSE /\ hangs' = {} /\ unresolved' = (e.start = -1)
     [] e.ev = "setoffset.end" /\ e.err = "" ->
          /\ start' = e.o /\ lower' = LowerFor(e.o, logStart, hw) /\ seg' = <<>>
+         /\ unresolved' = (e.o = -1)
          /\ UNCHANGED <<tid, present, logStart, hw, bad, stalled, hangs>>
+    \* "last" is resolved by the reader when it connects, not when SetOffset returns: the first fetch
+    \* request the leader receives afterwards shows what it resolved to (never below the end at the
+    \* time of the call, never beyond the current end)
+    [] e.ev = "fetch" /\ unresolved ->
+         /\ unresolved' = FALSE
+         /\ lower' = IF e.off >= lower /\ e.off <= hw THEN e.off ELSE lower
+         /\ UNCHANGED <<tid, present, logStart, hw, start, seg, bad, stalled, hangs>>
     [] e.ev = "msg" ->
          /\ seg' = Append(seg, e.off)
          /\ bad' = IF e.ok THEN bad ELSE bad \cup {e.off}
-         /\ UNCHANGED <<tid, present, logStart, hw, start, lower, stalled, hangs>>
+         /\ UNCHANGED <<tid, present, logStart, hw, start, lower, stalled, hangs, unresolved>>
     [] e.ev = "nomsg" ->
-         /\ stalled' = (Owed # {})
-         /\ UNCHANGED <<tid, present, logStart, hw, start, lower, seg, bad, hangs>>
+         /\ stalled' = (Owed # {} /\ ~unresolved)
+         /\ UNCHANGED <<tid, present, logStart, hw, start, lower, seg, bad, hangs, unresolved>>
     [] e.ev = "append" ->
          /\ present' = present \cup Range(e.batch.present)
          /\ hw' = Max(hw, e.batch.last + 1)
-         /\ UNCHANGED <<tid, logStart, start, lower, seg, bad, stalled, hangs>>
+         /\ UNCHANGED <<tid, logStart, start, lower, seg, bad, stalled, hangs, unresolved>>
     [] e.ev = "logstart" ->
          /\ logStart' = e.o
-         /\ UNCHANGED <<tid, present, hw, start, lower, seg, bad, stalled, hangs>>
+         /\ UNCHANGED <<tid, present, hw, start, lower, seg, bad, stalled, hangs, unresolved>>
     [] e.ev = "hang" ->
          /\ hangs' = hangs \cup {e.what}
-         /\ UNCHANGED <<tid, present, logStart, hw, start, lower, seg, bad, stalled>>
-    [] OTHER -> UNCHANGED <<tid, present, logStart, hw, start, lower, seg, bad, stalled, hangs>>
+         /\ UNCHANGED <<tid, present, logStart, hw, start, lower, seg, bad, stalled, unresolved>>
+    [] OTHER -> UNCHANGED <<tid, present, logStart, hw, start, lower, seg, bad, stalled, hangs, unresolved>>
 
 Next == l <= Len(Trace) /\ l' = l + 1 /\ Upd(Trace[l])
 Spec == Init /\ [][Next]_mvars
